@@ -162,6 +162,43 @@ theorem copy_str_other_package_rejected {w : World} {d s c k : Nat} {rm : Bool} 
     (hc : pos (w.pkgOf ss) c = some k) : copySingle w d s (.one c) rm false = .error .rejected :=
   FlowOps.copy_str_other_package_rejected hd hs hpk hc
 
+/-! ### copy onto a multi-phase destination (`MultiStream.copy_flow`), mirrored as it is -/
+
+/-- **Cut and paste between multi-phase streams with as many phases** (`IDs = ...`, `phase = ...`,
+`remove=True`): every chemical is moved, whatever the phase names (rows are paired by position). -/
+theorem copy_multi_all_partial {w w' : World} {d s : Nat} {sd ss : Strm}
+    (h : copyMulti w d s none .all true false = .ok w') (hds : d ≠ s)
+    (hd : w.strms[d]? = some sd) (hs : w.strms[s]? = some ss)
+    (hm : ss.multi = true) (hlen : sd.ph.length = ss.ph.length) (c : Nat) :
+    w'.amount d c = w.amount s c ∧ w'.amount s c = 0 :=
+  FlowOps.copy_multi_all_partial h hds hd hs hm hlen c
+
+/-- the full statement (no hypothesis on the number of phases) — false for the code as it is -/
+def copy_multi_all_statement : Prop :=
+  ∀ (w w' : World) (d s : Nat), copyMulti w d s none .all true false = .ok w' → d ≠ s →
+    ∀ c, w'.amount d c = w.amount s c ∧ w'.amount s c = 0
+
+/-- destination `(g, l)`, source `(g, l, s)` holding 5 of chemical 1 as a solid -/
+def wCopy : World :=
+  { pkgs := [[0, 1, 2]],
+    strms := [ { pkg := 0, multi := true, ph := [('g', [0, 0, 0]), ('l', [0, 0, 0])] },
+               { pkg := 0, multi := true, ph := [('g', [0, 0, 0]), ('l', [0, 0, 0]), ('s', [0, 5, 0])] },
+               { pkg := 0, multi := false, ph := [('g', [1, 2, 3])] },
+               { pkg := 0, multi := true, ph := [('L', [4, 0, 0]), ('s', [0, 0, 1/2])] } ] }
+
+/-- known finding: a source with more phases than the destination loses its last rows
+(`zip(rows, value)` stops at the shorter side, the removal zeroes every row) -/
+theorem copy_multi_all_counterexample : ¬ copy_multi_all_statement := by
+  intro h
+  have hok : ∃ w', copyMulti wCopy 0 1 none .all true false = .ok w' ∧ w'.amount 0 1 = 0 := by
+    refine ⟨_, rfl, ?_⟩
+    decide +kernel
+  obtain ⟨w', hw', h0⟩ := hok
+  have := (h wCopy w' 0 1 hw' (by decide) 1).1
+  rw [h0] at this
+  revert this
+  decide +kernel
+
 /-! ### non-vacuity: a concrete world on which every hypothesis is met with non-trivial numbers -/
 
 /-- three packages listing shared chemicals in different orders; a multi-phase stream, a stream on a
@@ -211,6 +248,17 @@ example : okAmount (copySingle w0 3 1 (.many [0]) true false) 3 0 = some 2 := by
 example : okAmount (copySingle w0 3 1 (.many [0]) true false) 1 0 = some 0 := by decide +kernel
 example : okAmount (copySingle w0 3 1 (.many [0]) true false) 1 2 = some 4 := by decide +kernel
 example : okAmount (scale w0 2 (3/2)) 2 0 = some (9/4) := by decide +kernel
+
+-- cut and paste between multi-phase streams with equally many phases
+example : okAmount (copyMulti wCopy 0 3 none .all true false) 0 0 = some 4 ∧
+          okAmount (copyMulti wCopy 0 3 none .all true false) 3 0 = some 0 := by decide +kernel
+-- known findings of `MultiStream.copy_flow`, mirrored:
+-- `exclude=True` with a phase other than the single-phase source's: copied but not removed (duplicated)
+example : okAmount (copyMulti wCopy 0 2 (some 'l') (.many [1]) true true) 0 0 = some 1 ∧
+          okAmount (copyMulti wCopy 0 2 (some 'l') (.many [1]) true true) 2 0 = some 1 := by decide +kernel
+-- `IDs = ..., exclude=True, remove=True`: the source is emptied, nothing is copied
+example : okAmount (copyMulti wCopy 0 2 none .all true true) 0 0 = some 0 ∧
+          okAmount (copyMulti wCopy 0 2 none .all true true) 2 0 = some 0 := by decide +kernel
 
 /-! ### the progress statement that fails (known finding) -/
 
